@@ -68,8 +68,10 @@ def random_drawing_circuit(rng, family=None, max_nodes=4, max_comps=6):
     return cd, family, w
 
 
-def make_program(rng):
-    cd, family, w = random_drawing_circuit(rng)
+def make_program(rng, tweak=None, family=None):
+    cd, family, w = random_drawing_circuit(rng, family)
+    if tweak is not None:
+        tweak(rng, cd, family, w)
     nodes = circdesc.nodes({'components': [c for c in cd['components'] if c['ctor'] != 'ground']})
     labels = {n: nm for n, nm in zip(rng.sample(nodes, min(len(nodes), rng.randint(0, 3))), rng.sample(['A', 'x', '10', 'out', 'φ1', '1', '2', '3', '4', '5'], 3))}
     prog = D.embed(rng, cd, labels=labels)
